@@ -5,5 +5,6 @@ let () =
   | "exec" -> D_exec.run ()
   | "cli" -> D_cli.run ()
   | "escape" -> D_escape.run ()
+  | "run" -> D_run.run ()
   | "validate" -> D_exec.run_validate ()
   | x -> prerr_endline ("unknown " ^ x); exit 2
